@@ -34,7 +34,7 @@ N2, NH, N3 = ("num", "2.000"), ("num", "0.500"), ("num", "3.250")
 PI = ("call", "pi", [])
 ENVS = [(2.0, 3.0, 0.5), (-1.5, 0.5, 2.0), (0.0, -2.0, 1.0), (0.25, 0.0, -3.0)]
 NAN = float("nan")
-STYLES = ["minimal", "full", "nospace"]
+STYLES = ["minimal", "full", "nospace", "whitespace"]  # whitespace: tabs and newlines instead of blanks
 UN_OPS = ["!", "~", ".-", ".+"]
 BIN_OPS = ["^", "**", "*", "/", "%", "+", "-", "and", "or"]
 
@@ -65,6 +65,9 @@ def run_tree(acc: Acc, ctx: Ctx, tree, family: str, flat: list[str] | None = Non
             texts[style] = " ".join(flat)
         elif flat is not None and style == "nospace":
             texts[style] = "".join(f" {t} " if t in ("and", "or") else t for t in flat).strip()
+        elif style == "whitespace":
+            parts = texts["minimal"].split(" ")
+            texts[style] = "".join(p + ("" if k == len(parts) - 1 else ("\t", "\n", " \r\n")[k % 3]) for k, p in enumerate(parts))
         else:
             texts[style] = F.render(tree, style)
     wants = [F.evaluate(tree, env_of(k)) for k in range(len(ENVS))]
@@ -117,6 +120,13 @@ def run_tree(acc: Acc, ctx: Ctx, tree, family: str, flat: list[str] | None = Non
                 acc.violate("value", {"family": family}, {**case, "env": env}, wants[k], got,
                             f"{text!r} at {env} = {got!r}, ordinary mathematics gives {wants[k]!r}")
                 continue
+            if n == 0 and k == 0:  # a Function's value is the formula's value whatever the term's height attribute says
+                term.height = 0.5
+                got_h = float(impl_eval(ctx, term, env))
+                term.height = 1.0
+                if not close(got_h, got, 0.0, 0.0):
+                    acc.violate("value", {"family": family, "height": True}, {**case, "env": env}, got, got_h,
+                                f"{text!r} at {env} = {got_h!r} once the term's height is 0.5, {got!r} with height 1")
             rpn = F.evaluate_rpn(got_postfix_of(term), env)
             if not close(rpn, got, 1e-12, 1e-9):
                 acc.violate("rpn", {}, {**case, "env": env}, got, rpn, f"postfix {got_postfix_of(term)!r} evaluates to {rpn!r}, the tree to {got!r}")
